@@ -307,7 +307,7 @@ class C03:
     assumptions = ['gcc and clang accept the GNU extensions used (case ranges, labels as values, statement expressions) with the documented semantics']
 
     def budget(self, tier):
-        return 1000 if tier == 'quick' else 25000
+        return 1000 if tier == 'quick' else 12000
 
     def gen_cf(self, ch, depth):
         g = CF(ch)
